@@ -154,7 +154,8 @@ PayloadCases ==
                  : kw \in AnyTyped(kf[1], kf[2]) \cup (IF AdmitsExt(kf[1], kf[2]) THEN {"x-ext"} ELSE {})}
           : kf \in KindFlavours}
   \* "no security at all" written explicitly: an empty list of requirements (distinct from an absent member)
-  \cup {Case("payload", <<>>, kf[1], kf[2], <<[name |-> "security", vt |-> "security", cls |-> "secNone"]>>)
+  \* and requirements that name no scheme at all ({}: "anonymous access is fine too"), alone and next to others
+  \cup UNION {{Case("payload", <<>>, kf[1], kf[2], <<[name |-> "security", vt |-> "security", cls |-> c]>>) : c \in {"secNone", "secAnon", "secAnonMixed"}}
           : kf \in {x \in KindFlavours : "security" \in Free(x[1], x[2])}}
 
 \* ---- whole, valid Swagger documents (C19): every single-member case of every kind, placed at
